@@ -73,6 +73,10 @@ claim("C19", "value provenance of every append into the deletions / upserts list
       "Decides C19.1 (4 diff functions: deletions come from the local input, upserts from the remote), C19.3 (3 merge walks drain both tails), C19.6 (a cursor only advances past a matched, scheduled or own-empty element — the seeded misalignment class), C19.4 (6 apply steps only below a non-empty difference), C19.5 (a failed apply step never lets the remote index advance). Sort key = merge key (C19.2) is not built; equality of the resulting sets for all inputs is not decided.",
       "DESIGN.md section 3 C19")
 
+claim("C17", "value provenance of the PeerName field of every catalog request issued by the peer-stream handlers; edge-cut guards (consumer match on the exporting side, node-keyed membership tests before a service deregistration, not-in-new-list edge before the prune)",
+      "Decides C17.1 (5 deregistrations take PeerName from the handler's peer parameter; 3 registrations are built from the snapshot that stamps node, service and check), C17.2 (insertions into the exported sets only below a consumer match), C17.3 (unexported services are pruned from the stored list), C17.4 (a stored instance is deregistered unless the snapshot holds it on the same node — the seeded flat-map class). Exact reconciliation for all prior-state/snapshot pairs is not decided.",
+      "DESIGN.md section 3 C17")
+
 NA_REASON = {}
 
 checks = []
